@@ -463,6 +463,7 @@ func runCase(t *testing.T, c *caseT, h hooks) *world {
 			w.build()
 			w.onQuiescent = func(w *world) {
 				w.monitor()
+				w.checkDeco()
 				if h.online != nil {
 					h.online(w)
 				}
